@@ -759,7 +759,7 @@ func (in *instr) rewriteExprs() {
 					return true
 				}
 				in.count("R8.std")
-				c.Replace(simcall(x.Sel.Name + "W"))
+				c.Replace(simcall(x.Sel.Name + "F"))
 			}
 		}
 		return true
